@@ -77,6 +77,8 @@ func (t *VT) AttachTo(cons console.Device) {
 		t.data[i+1] = t.defaultFg
 		t.data[i+2] = t.defaultBg
 	}
+
+	t.updateDataOffset()
 }
 
 // State returns the TTY's state.
